@@ -31,9 +31,13 @@ fn c10_strategy(ctx: &Ctx) -> BoxedStrategy<SeqCase> {
   let max = ctx.tier.pick(12, 20);
   let kinds = prop::sample::select(vec![HotKind::Subject, HotKind::Behavior(9), HotKind::Replay, HotKind::Async]);
   // optionally observer 0 subscribes observer 2 from inside its n-th next callback
-  let nested = prop::option::weighted(0.3, 0usize..3);
-  (kinds, prop::collection::vec(sop(), 1..=max), any::<bool>(), nested, 0u64..4)
-    .prop_map(|(kind, ops, via_op, nested, hash_seed)| {
+  // (or from inside its terminal callback: the subject is mid-way through its terminal then)
+  let nested = prop::option::weighted(0.3, prop_oneof![3 => 0usize..3, 1 => Just(AT_TERMINAL)]);
+  // optionally an observer pushes an item into the subject from inside its n-th next
+  // callback (re-entrant next: "once each" also holds for it)
+  let reemit = prop::option::weighted(0.3, (0usize..3, 0usize..3, 3i64..5));
+  (kinds, prop::collection::vec(sop(), 1..=max), any::<bool>(), nested, reemit, 0u64..4)
+    .prop_map(|(kind, ops, via_op, nested, reemit, hash_seed)| {
       let mut actions = Vec::new();
       let mut terminated = false;
       let mut subscribed = [false; 3];
@@ -82,15 +86,21 @@ fn c10_strategy(ctx: &Ctx) -> BoxedStrategy<SeqCase> {
           hots: vec![kind.clone()],
           hot_illformed: false,
           conn: None, conn_take: None,
-          recorders: vec![
-            match (nested, &kind) {
-              // (an AsyncSubject observer only hears from the subject on completion)
-              (Some(at), k) if *k != HotKind::Async => vec![Reaction { at, what: React::Subscribe(2) }],
-              _ => vec![],
-            },
-            vec![],
-            vec![],
-          ],
+          recorders: {
+            let mut rs = vec![
+              match (nested, &kind) {
+                // (an AsyncSubject observer only hears from the subject on completion)
+                (Some(at), k) if *k != HotKind::Async => vec![Reaction { at, what: React::Subscribe(2) }],
+                _ => vec![],
+              },
+              vec![],
+              vec![],
+            ];
+            if let (Some((k, at, v)), false, true) = (reemit, kind == HotKind::Async, nested.is_none()) {
+              rs[k].push(Reaction { at, what: React::Emit(0, Ev::N(v)) });
+            }
+            rs
+          },
           actions,
         },
         hash_seed,
@@ -100,7 +110,10 @@ fn c10_strategy(ctx: &Ctx) -> BoxedStrategy<SeqCase> {
 }
 
 fn c10_check(_ctx: &Ctx, c: &SeqCase) -> Report {
-  let out = diff(c, DiffOpts::default());
+  // a re-entrant next reaches the observers in the subject's (unspecified) broadcast order:
+  // "once each" is then compared per observer as a multiset
+  let reentrant = c.case.recorders.iter().flatten().any(|r| matches!(r.what, React::Emit(_, _)));
+  let out = diff(c, DiffOpts { unordered_items: reentrant, ..Default::default() });
   let mut rep = out.rep;
   rep.classes.push(format!("kind:{:?}", c.case.hots[0]).split('(').next().unwrap().to_string());
   // non-trivial: a subscribe after >= 1 next, or an unsubscribe followed by a next, or any
@@ -129,6 +142,12 @@ fn c10_check(_ctx: &Ctx, c: &SeqCase) -> Report {
       }
       Action::Emit(_, _) => seen_term = true,
       _ => {}
+    }
+  }
+  if let Some(r) = &out.real {
+    if r.log.reactions_fired.iter().any(|(k, ri)| matches!(c.case.recorders[*k][*ri].what, React::Emit(_, _))) {
+      rep.classes.push("reentrant-next".into());
+      nt = true;
     }
   }
   rep.classes.sort();
